@@ -21,7 +21,9 @@
 package engine
 
 import (
+	"errors"
 	"fmt"
+	"go/ast"
 	"go/token"
 	"reflect"
 
@@ -73,7 +75,24 @@ func (r PtrReplacer) Replace(d data.Data, cl Changelog, pos token.Pos) (reflect.
 	if err := setValue(v, x.Addr()); err != nil {
 		return reflect.Value{}, err
 	}
+	if err := checkRebuilt(v); err != nil {
+		return reflect.Value{}, err
+	}
 	return v, nil
+}
+
+// checkRebuilt reports an error if a node rebuilt from the "+" pattern lacks
+// a part that go/ast needs it to have. An elision may stand for no elements,
+// so a list that is not empty in the patch can come out empty.
+func checkRebuilt(v reflect.Value) error {
+	stmt, ok := v.Interface().(*ast.AssignStmt)
+	if !ok || stmt == nil {
+		return nil
+	}
+	if len(stmt.Lhs) == 0 || len(stmt.Rhs) == 0 {
+		return errors.New(`assignment is left without expressions on one side: "..." stands for nothing here`)
+	}
+	return nil
 }
 
 // SliceReplacer replaces a slice of values.
